@@ -164,6 +164,7 @@ def check_stream_props(prop, tier, seed, log=print):
     if prop == 'C01':
         lk = pikevm_pass(run, r, log)
         run.coverage['lookaround_reference'] = lk
+        run.coverage['spec_vs_regex_crate'] = regex_crate_pass(run, r, log)
     run.coverage.update(dict(evaluations=evals, distinct_nontrivial=len(nontrivial),
                              rule='(definition, input) pairs run through compiled lexers in every configuration; inputs are transition-directed '
                                   '(access string of every graph state + probe bytes / EOI, self-loop run lengths 0..17) plus pattern samples and random strings; '
@@ -173,6 +174,82 @@ def check_stream_props(prop, tier, seed, log=print):
     run.assumptions += ['look-around definitions are covered by the graph-level theorems and the implementation-vs-model tie only (spec-level theorems are stated for the look-free fragment)',
                         'quantifier over definitions is sampled (corpus); per validated definition the theorem covers every input']
     return run.finish()
+
+
+def regex_crate_pass(run, r, log):
+    """tie T-C: the Lean semantics of every captured leaf HIR (matchesB on Hir.lower) against the regex crate
+    compiling the same pattern text with the same flags, on strings sampled from the pattern, mutated samples and
+    random strings. Validates the HIR dump, the UTF-8 lowering and the Lean semantics (testing of the spec)."""
+    import subprocess, random as _rnd
+    R = _rnd.Random(r['seed'] * 13 + 5)
+    corpus, caps = r['corpus'], r['caps']
+    reqs, keys, lq = [], [], {}
+    for i in r['accepted']:
+        d = corpus[i]
+        if d.subpatterns:
+            continue
+        for li, lf in enumerate(d.ordered_leaves()):
+            if getattr(lf, 'look', False):
+                continue
+            if lf.kind == 'token':
+                raw = lf.pat if lf.is_bytes else lf.pat.encode('utf-8')
+                reqs.append('L %d %d %s' % (0 if lf.is_bytes else 1, 1 if lf.ignore_case else 0, P.hexs(raw)))
+            else:
+                if lf.is_bytes:
+                    continue
+                reqs.append('P 1 %d %s' % (1 if lf.ignore_case else 0, P.hexs(lf.pat.encode('utf-8'))))
+            keys.append(None)
+            ws = set()
+            for _ in range(6):
+                try:
+                    smp = lf.ast.sample(R) if lf.ast is not None else (lf.pat if isinstance(lf.pat, str) else '')
+                except Exception:
+                    smp = 'a'
+                b = smp.encode('utf-8')
+                ws.add(b)
+                if b:
+                    k = R.randrange(len(b))
+                    ws.add(b[:k] + b[k + 1:])
+                    ws.add(b[:k] + bytes([R.choice(b'ab0 zA')]) + b[k:])
+                    ws.add(b.swapcase())
+            for _ in range(3):
+                ws.add(''.join(R.choice(d.alphabet() + ['a', 'b']) for _ in range(R.choice([1, 2, 3]))).encode('utf-8'))
+            if d.utf8:
+                ws = {w for w in ws if P.is_valid_utf8(list(w))}
+            for w in sorted(ws):
+                reqs.append('W ' + P.hexs(w))
+                keys.append((i, li, w))
+                lq.setdefault(i, []).append('MATCH %d %s' % (li, P.hexs(w)))
+    if not reqs:
+        return dict(comparisons=0)
+    binp = os.path.join(P.HARNESS, 'target', 'debug', 'refmatch')
+    outs = subprocess.run([binp], input='\n'.join(reqs) + '\n', capture_output=True, text=True).stdout.split('\n')
+    lines = []
+    for i, qs in lq.items():
+        lines += P.case_block(str(i), caps[i], corpus[i])
+        lines += ['Q ' + q for q in qs]
+    ans = P.run_lean(lines, nproc=8)
+    n = bad = matched = 0
+    badpat = False
+    for k, o in zip(keys, outs):
+        if k is None:
+            badpat = (o != 'OK')
+            continue
+        if badpat or o not in ('0', '1'):
+            continue
+        i, li, w = k
+        mv = ans.get('%d MATCH %d %s' % (i, li, P.hexs(w)))
+        if mv not in ('0', '1'):
+            continue
+        n += 1
+        matched += (o == '1')
+        if mv != o:
+            bad += 1
+            run.violation('spec-vs-regex-crate', dict(definition=r['srcs'][i], leaf=li, string_hex=P.hexs(w), string_text=w.decode('utf-8', 'replace'),
+                                                      regex_crate_matches=o, lean_semantics_of_captured_hir=mv,
+                                                      what='the regex crate and the Lean semantics of the HIR logos compiled disagree on this string: either logos compiles a different pattern than written, or the dump/lowering/semantics is wrong',
+                                                      correspondence='T-C'), no_input=True, key='tc|%s|%d|%s' % (corpus[i].origin, li, P.hexs(w)))
+    return dict(comparisons=n, matching_strings=matched, disagreements=bad)
 
 
 def pikevm_pass(run, r, log):
